@@ -596,8 +596,14 @@ class Vstack(Linop):
                 else:
                     end = self.indices[n]
 
+                output_n = linop(input)
+                if not xp.can_cast(output_n.dtype, output.dtype):
+                    output = output.astype(
+                        xp.result_type(output.dtype, output_n.dtype)
+                    )
+
                 if self.axis is None:
-                    output[start:end] = linop(input).ravel()
+                    output[start:end] = output_n.ravel()
                 else:
                     ndim = len(linop.oshape)
                     axis = self.axis % ndim
@@ -606,7 +612,7 @@ class Vstack(Linop):
                         + [slice(start, end)]
                         + [slice(None)] * (ndim - axis - 1)
                     )
-                    output[slc] = linop(input)
+                    output[slc] = output_n
 
         return output
 
@@ -680,6 +686,11 @@ class Diag(Linop):
                     )
 
                     output_n = linop(input[islc])
+
+                if not xp.can_cast(output_n.dtype, output.dtype):
+                    output = output.astype(
+                        xp.result_type(output.dtype, output_n.dtype)
+                    )
 
                 if self.oaxis is None:
                     output[ostart:oend] = output_n.ravel()
